@@ -38,7 +38,7 @@ class C12(P.Property):
                    "an unacknowledged request in flight when its connection ends may or may not have been applied"]
     probe_names = ["two_waiters_one_predecessor", "newcomer_during_cleanup", "waiter_closes_before_served", "predecessor_aborted",
                    "request_queued_while_waiting", "overlap_init_state_0", "overlap_init_state_1", "overlap_init_state_2",
-                   "three_overlapping", "overlap_longer_than_20s"]
+                   "three_overlapping", "overlap_longer_than_20s", "state_file_read_error"]
 
     def setup(self):
         world.setup_frontend()
@@ -83,8 +83,12 @@ class C12(P.Property):
             idx[n] += 1
         knobs = dict(scheme=rng.choice(C12_SCHEMES), init_state=rng.choice([0, 0, 1, 1, 2]),
                      net=rng.choice([dict(lo=0.001, hi=0.05), dict(lo=0.001, hi=0.05, seg=3), dict(lo=0.0005, hi=0.004),
-                                     dict(lo=0.01, hi=0.3, tail=0.1, seg=2)]),
+                                     dict(lo=0.01, hi=0.3, tail=0.1, seg=2),
+                                     dict(lo=0.0, hi=0.0)]),  # the last: no latency -- events tie, only the loop's FIFO order decides
                      skew=rng.choice([1.0, 1.0, 0.5, 2.0]), bufsize=rng.choice([8192, 8192, 16]), gc_every=rng.choice([0, 0, 0, 1, 2]))
+        if rng.random() < 0.1:
+            # injected system-call failure: from this step on, the server's next read of the state file fails once (EMFILE)
+            knobs["read_fault"] = {"step": rng.randrange(len(steps)), "skip": rng.choice([0, 1, 1, 2, 3])}
         if tier == "thorough" and rng.random() < float(os.environ.get("VERIF_C12_BIG_RATE", "0.0015")):
             knobs.update(scheme="CJJ14.PiBas", big=True)
         return {"property": "C12", "seed": seed, "knobs": knobs, "steps": steps}
@@ -118,6 +122,8 @@ class C12(P.Property):
                     res.violations.append(V("C12.2", "HANG", f"deadlock: {e}"))
             self._oracle(run, plan, w, out, meta_writes, res)
             res.digest = run.sim.digest()
+            if run.sim.counters.get("read_error"):
+                res.probes["state_file_read_error"] = 1
             res.sim_seconds = run.sim.loop._vt
             res.events = run.sim.loop.steps
             res.counters = dict(run.sim.counters)
@@ -155,6 +161,9 @@ class C12(P.Property):
             n, do = st["actor"], st["do"]
             a = actors.get(n)
             run.maybe_gc(si)
+            rf = knobs.get("read_fault")
+            if rf is not None and rf["step"] == si:
+                run.seam.fail_read = ("server", "service_meta", rf.get("skip", 0))
             try:
                 if do == "open":
                     if a is None:
@@ -181,6 +190,7 @@ class C12(P.Property):
         await asyncio.sleep(8)
         for a in actors.values():
             await a.close()
+        run.seam.fail_read = None  # faults stop here; what follows is the look at the outcome
         await asyncio.sleep(4)
         if knobs.get("gc_every"):
             world.gc_point()  # everything is closed: whatever finalizers exist run now, before the probe looks
@@ -231,6 +241,10 @@ class C12(P.Property):
                 opens[e[1]] = i
             elif e[0] == "s_closed":
                 closes[e[1]] = i
+        # a connection takes part in the ordering once the server has taken it on (sent its init echo); one that died in the
+        # server's constructor (e.g. on an injected read error) was never served nor made to wait
+        echoed = {e[1] for e in ev[base:] if e[0] == "s_send" and e[2] == "init"}
+        opens = {c: i for c, i in opens.items() if c in echoed}
         conns = sorted(opens, key=opens.get)
         label = {c: "c%d" % k for k, c in enumerate(conns)}
         INF = 10 ** 9
@@ -257,8 +271,14 @@ class C12(P.Property):
         if order_bad:
             viol.append(V("C12.1", "ORDER", order_bad))
         overlapped = 0
+        echo_at = {}
+        for i in range(base, len(ev)):
+            if ev[i][0] == "s_send" and ev[i][2] == "init":
+                echo_at.setdefault(ev[i][1], i)
         for j in conns:
-            preds = [pi for pi in conns if opens[pi] < opens[j] and closes.get(pi, INF) > opens[j]]
+            # "still open" is judged at the moment the server takes j on (its init echo leaves): a predecessor whose handler died
+            # in the same instant (e.g. on an injected read error under the lock) is not something j has to wait for
+            preds = [pi for pi in conns if opens[pi] < opens[j] and closes.get(pi, INF) > echo_at.get(j, opens[j])]
             if preds:
                 overlapped += 1
                 if len(preds) >= 2:
@@ -361,7 +381,7 @@ class C12(P.Property):
     # ------------------------------------------------------------------ minimisation
     def simplifications(self, plan):
         k = plan["knobs"]
-        for key, val in (("skew", 1.0), ("bufsize", 8192), ("scheme", "CJJ14.PiBas"), ("net", dict(lo=0.01, hi=0.01)), ("gc_every", 0), ("big", False)):
+        for key, val in (("skew", 1.0), ("bufsize", 8192), ("scheme", "CJJ14.PiBas"), ("net", dict(lo=0.01, hi=0.01)), ("gc_every", 0), ("big", False), ("read_fault", None)):
             if k.get(key) != val:
                 yield dict(plan, knobs=dict(k, **{key: val}))
         if k["init_state"] > 0:
